@@ -53,6 +53,8 @@ Cell(k) == [t |-> "cell", id |-> k]
 Unset == [t |-> "unset"]
 IntVals == {IntV(1), IntV(2)}
 BadV == IntV(9)     \* outside the declared bounds of a plain parameter
+BadEq == [t |-> "badeq"]   \* a value of the wrong type that compares equal to the current value (float(v) for an Integer)
+IsBad(v) == v = BadV \/ v = BadEq
 
 \* ---- lookup: what attribute access and the .param namespace must both resolve to ----------
 Declared(c, n) == \E i \in 1..Len(Mro(c)) : cdict[Mro(c)[i]][n] # 0
@@ -135,8 +137,8 @@ ClassSet(c, n, v) ==
   /\ "classset" \in Acts /\ Step /\ Declared(c, n)
   /\ (n \in Names => Kind[n] \notin SelKinds)
   /\ LET src == Lookup(c, n) IN
-     IF v = BadV
-     THEN \* rejected by validation (out of bounds): nothing changes
+     IF IsBad(v)
+     THEN \* rejected by validation (out of bounds / wrong type): nothing changes
           /\ UNCHANGED <<P, cdict, cells, I>>
           /\ Rec("classset", [c |-> c, n |-> n, v |-> v], "ValueError", P, cdict, cells, I, {})
      ELSE IF P[src].readonly
@@ -277,13 +279,13 @@ InstSet(i, n, v, route) ==
         \* (an assignment to an initialized instance is delegated to its per-instance Parameter, which is
         \*  created on demand -- before the value is looked at, so a rejected assignment creates it too:
         \*  like `i.param[n]`, that shows only in which Parameter later attribute edits reach)
-        /\ IF (v = BadV /\ ~frozen) \/ (frozen /\ (p.readonly \/ val # cur))
+        /\ IF (IsBad(v) /\ ~frozen) \/ (frozen /\ (p.readonly \/ val # cur))
            THEN LET mk == I[i].ip[n] = 0 /\ P[Lookup(I[i].cls, n)].perinst IN
                 /\ P' = IF mk THEN Append(P, P[Lookup(I[i].cls, n)]) ELSE P
                 /\ I' = [I EXCEPT ![i].ip[n] = IF mk THEN Len(P) + 1 ELSE @]
                 /\ UNCHANGED <<cdict, cells>>
                 /\ Rec("instset", [i |-> i, n |-> n, v |-> v, route |-> route],
-                       IF v = BadV /\ ~frozen THEN "ValueError" ELSE "TypeError", P', cdict, cells, I', {})
+                       IF IsBad(v) /\ ~frozen THEN "ValueError" ELSE "TypeError", P', cdict, cells, I', {})
            ELSE LET mk == I[i].ip[n] = 0 /\ P[Lookup(I[i].cls, n)].perinst IN
                 /\ P' = IF mk THEN Append(P, P[Lookup(I[i].cls, n)]) ELSE P
                 /\ I' = [I EXCEPT ![i].vals[n] = val, ![i].ip[n] = IF mk THEN Len(P) + 1 ELSE @]
@@ -331,8 +333,8 @@ ExitEdit(i, raising) == /\ "edit" \in Acts /\ i \in 1..Len(I) /\ I[i].edit > 0
 NewCell == [t |-> "newcell"]
 SkipRef == [t |-> "skipref"]
 ValsFor(n) == IF n \in Names /\ Kind[n] \in {"mut_inst", "mut_shared", "const"} THEN {NewCell}
-              ELSE IF n \in Names /\ Kind[n] \in {"plain", "noperinst"} THEN IntVals \cup {BadV} ELSE IntVals
-Kws(c) == {<<>>} \cup UNION {{[x \in {n} |-> v] : v \in (ValsFor(n) \ {BadV}) \cup (IF Kind[n] = "mut_inst" /\ "skipref" \in Acts THEN {SkipRef} ELSE {})} :
+              ELSE IF n \in Names /\ Kind[n] \in {"plain", "noperinst"} THEN IntVals \cup {BadV, BadEq} ELSE IntVals
+Kws(c) == {<<>>} \cup UNION {{[x \in {n} |-> v] : v \in (ValsFor(n) \ {BadV, BadEq}) \cup (IF Kind[n] = "mut_inst" /\ "skipref" \in Acts THEN {SkipRef} ELSE {})} :
                                 n \in {m \in Names : Declared(c, m) /\ Kind[m] # "readonly"}}
 
 Next ==
